@@ -16,6 +16,7 @@
 -/
 import M4riProofs.Props.C01
 import M4riProofs.Top
+import M4riProofs.GenTie
 namespace M4ri.Props.C12
 open M4ri M4ri.BMat
 
@@ -105,5 +106,18 @@ end cfg2
 #check @M4ri.BMat.Top.echelonizeHybrid_top_full_eq
 #check @M4ri.BMat.Top.inv_m4ri
 #check @M4ri.BMat.PR.pleRussian_indep
+
+
+/-! ### tie to the C text: the functions below are GENERATED from /repo/m4ri by vlib/ctrans.py (clang AST) on every
+    check (M4ri/Gen/CFuns.lean); these theorems prove them equal to the hand-written model definitions the theorems
+    above are about, for all arguments of the C domain -/
+#check @M4ri.GenTie.pleSplit_eq
+#check @M4ri.GenTie.trsmUpperRightSplit_eq
+#check @M4ri.GenTie.trsmLowerRightSplit_eq
+#check @M4ri.GenTie.trsmLowerLeftSplit_eq
+#check @M4ri.GenTie.trsmUpperLeftSplit_eq
+#check @M4ri.GenTie.mulEvenSplit_eq
+#check @M4ri.GenTie.sqrEvenSplit_eq
+#check @M4ri.GenTie.closer_eq
 
 end M4ri.Props.C12
